@@ -86,6 +86,14 @@ impl<'a, 'tcx> Mx<'a, 'tcx> {
                                     if let Rvalue::Use(Operand::Constant(k), _) = &b.1 {
                                         lits.push(format!("{}", k.const_));
                                     }
+                                    if let Rvalue::Aggregate(kind, ops) = &b.1 {
+                                        if let AggregateKind::Adt(did, vidx, _, _, _) = &**kind {
+                                            if ops.is_empty() {
+                                                let adt = self.tcx.adt_def(*did);
+                                                lits.push(format!("&{}::{}", def_path(self.tcx, *did), adt.variant(*vidx).name));
+                                            }
+                                        }
+                                    }
                                 }
                             }
                         }
